@@ -145,9 +145,16 @@ def do_dtype(req):
     # reference observations: the three libraries built directly from numpy dtypes
     refs = {}
     kerneldll.SAS_DLL_PATH = os.path.join(base, "ref")
-    for bits, dt in ((32, "float32"), (64, "float64"), (128, "longdouble")):
-        m = kerneldll.load_dll(source, info, np.dtype(dt))
-        refs[bits] = fvec(evaluate(m, pars, qv, label))
+    tid = req.get("first_tid", 1)
+    try:
+        for bits, dt in ((32, "float32"), (64, "float64"), (128, "longdouble")):
+            m = kerneldll.load_dll(source, info, np.dtype(dt))
+            refs[bits] = fvec(evaluate(m, pars, qv, label))
+    except Exception as exc:          # "the resulting kernels build": the specification rejects these events
+        for k, sp in enumerate(req["spellings"]):
+            emit({"tid": tid + k, "ev": "Dtype", "model": name, "spelling": sp, "raised": True,
+                  "error": "building the reference libraries: %s: %s" % (type(exc).__name__, str(exc)[-1500:])})
+        return
     compiled = []
     real_compile = kerneldll.compile_model
 
@@ -156,7 +163,6 @@ def do_dtype(req):
             compiled.append((os.path.basename(output), f.readline()))
         return real_compile(source=source, output=output)
     kerneldll.compile_model = spy
-    tid = req.get("first_tid", 1)
     for sp in req["spellings"]:
         ev = {"tid": tid, "ev": "Dtype", "model": name, "spelling": sp, "raised": False,
               "ref32": refs[32], "ref64": refs[64], "ref128": refs[128]}
